@@ -208,8 +208,15 @@ def scenarios(prop, tier, rng):
         for (l, c, o) in (quick3 if q else combos3):
             out.append(("n3", scen(n=3, leader=l, consts=c, out=o)))
         out.append(("n2k2", scen(n=2, comps=2, leader=[0, 1], conc=[1, 1])))
+        # "... and MPC-message calls": one directed link delivers its MPC messages as late as possible
+        out.append(("n3slow20", scen(n=3, leader=1, consts=[True, True, True], slow=[2, 0])))
+        out.append(("n3slow10", scen(n=3, leader=0, consts=[False, False, False], slow=[1, 0])))
         if not q:
             out.append(("n3k2", scen(n=3, comps=2, leader=[2, 2], conc=[1, 1, 1], consts=[False, True, False])))
+            for (a, b) in ((0, 1), (0, 2), (1, 2), (2, 1)):
+                out.append((f"n3slow{a}{b}", scen(n=3, leader=(a + b) % 3, consts=[True, False, True], slow=[a, b])))
+            out.append(("n2slow01", scen(n=2, slow=[0, 1])))
+            out.append(("n2slow10", scen(n=2, leader=1, slow=[1, 0])))
     elif prop == "C14":
         out.append(("n2", scen(n=2, stray=1)))
         out.append(("n2b", scen(n=2, leader=1, consts=[False, False], stray=1)))
